@@ -42,7 +42,7 @@ def main():
     if len(behs) < 5000:
         raise MachineryError(f"FieldWrites_gen: only {len(behs)} behaviours")
     ctx.cov["two_write_sequences"] = len(behs)
-    sim = ctx.run_tlc("FieldWrites", "FieldWrites_sim.cfg", expect=None, simulate=f"num={4000 if thorough else 500}",
+    sim = ctx.run_tlc("FieldWrites", "FieldWrites_sim.cfg", expect=None, simulate=f"num={1200 if thorough else 500}",
                       depth=8, seed=ctx.seed + 1, workers=8)
     if sim.error:
         raise MachineryError("FieldWrites_sim: " + sim.error)
